@@ -116,7 +116,7 @@ func checkCli(c Case) error {
 		name := named[c.Sel%len(named)].Name
 		// the tree once, twice or three times in the input: every tree gets its subtree, to stdout or
 		// to the one output file
-		copies := 1 + c.Sel%3
+		copies := 1 + (c.Sel/7)%3
 		return cli.DifferentialIn([]string{"subtree", "-n", "^" + name + "$"}, strings.Repeat(text, copies), nil, c15out(c), c15in(c), func() (out string, err error) {
 			defer func() { out = strings.Repeat(out, copies) }()
 			t, err := load(c.Tree, false)
